@@ -197,3 +197,11 @@ pub fn zst_table_run() -> (usize, usize, Option<String>) {
     }
     (t.len(), cached, first)
 }
+
+pub fn to_json_l(c: &LCase) -> String {
+    serde_json::to_string(c).unwrap()
+}
+
+pub fn to_json_b(c: &BCase) -> String {
+    serde_json::to_string(c).unwrap()
+}
